@@ -62,3 +62,94 @@ Lemma primary_flag_refuted :
   targets false (S "- 240101#05 x [240101#02]") = [] /\
   targets false (S "- 240101#05 y [240101#02]") = [S "240101#02"].
 Proof. vm_compute. auto. Qed.
+
+(* ---------------- the property-level reading of the word scan ---------------- *)
+(* what a word offers once the line's own identity is behind: itself when link-like, the ZID it holds (bare or
+   bracketed) otherwise *)
+Definition target_of (w0 : str) : option str :=
+  let w := strip_chars punct w0 in
+  let zw := strip_chars (S "[]") w in
+  if is_linkish w then Some w else if is_zid zw then Some zw else None.
+Fixpoint all_targets (ws : list str) : list str :=
+  match ws with
+  | [] => []
+  | w :: r => match target_of w with Some t => t :: all_targets r | None => all_targets r end
+  end.
+
+Lemma scan_found z : forall ws first, scan z first true ws = all_targets ws.
+Proof.
+  induction ws as [|w0 r IH]; intros first; [reflexivity|].
+  cbn [scan all_targets]. unfold target_of.
+  destruct (is_linkish (strip_chars punct w0)); [now rewrite IH|].
+  destruct (is_zid (strip_chars (S "[]") (strip_chars punct w0))); cbn [andb orb negb]; now rewrite IH.
+Qed.
+
+(* on query pages (.zoq files) every ZID is a target, whatever precedes it *)
+Lemma scan_zoq : forall ws first found, scan true first found ws = all_targets ws.
+Proof.
+  induction ws as [|w0 r IH]; intros first found; [reflexivity|].
+  cbn [scan all_targets]. unfold target_of.
+  destruct (is_linkish (strip_chars punct w0)); [now rewrite IH|].
+  destruct (is_zid (strip_chars (S "[]") (strip_chars punct w0))).
+  - cbn [andb]. rewrite orb_true_r. cbn [orb]. now rewrite IH.
+  - cbn [andb]. destruct (negb found && _ && _ && _ && _); now rewrite IH.
+Qed.
+
+(* the words of the identity prefix of an item line: kind character, priority, six-digit date, the line's own ZID *)
+Definition prefix_like (w0 : str) : Prop :=
+  let w := strip_chars punct w0 in
+  is_linkish w = false /\
+  (is_prefix_symbol w || is_priority_word w || is_short_date_spec w || is_zid w = true).
+(* an ordinary word: none of the above, no link, holds no ZID *)
+Definition ordinary (w0 : str) : Prop :=
+  let w := strip_chars punct w0 in
+  is_linkish w = false /\ is_zid (strip_chars (S "[]") w) = false /\ is_prefix_symbol w = false /\
+  is_priority_word w = false /\ is_short_date_spec w = false /\ is_zid w = false.
+
+Lemma scan_prefix : forall pre rest,
+  Forall prefix_like pre -> scan false false false (pre ++ rest) = scan false false false rest.
+Proof.
+  induction pre as [|w0 pre IH]; intros rest H; [reflexivity|].
+  inversion H as [|? ? (Hl & Hp) Hr]; subst. cbn [app scan]. rewrite Hl. cbn [orb]. rewrite andb_false_r.
+  replace (negb false && negb (is_prefix_symbol (strip_chars punct w0)) && negb (is_priority_word (strip_chars punct w0))
+           && negb (is_short_date_spec (strip_chars punct w0)) && negb (is_zid (strip_chars punct w0))) with false.
+  - apply IH. exact Hr.
+  - symmetry. cbn [negb andb].
+    destruct (is_prefix_symbol (strip_chars punct w0)); [reflexivity|].
+    destruct (is_priority_word (strip_chars punct w0)); [reflexivity|].
+    destruct (is_short_date_spec (strip_chars punct w0)); [reflexivity|].
+    cbn [orb] in Hp. rewrite Hp. reflexivity.
+Qed.
+
+(* An item line: kind character, the rest of the identity prefix (priority, modify date, the note's own ZID - in
+   any combination), an ordinary word, then anything. The targets are exactly the link-like words and the ZIDs
+   (bare or bracketed) AFTER that word, in line order; nothing of the prefix is offered. *)
+Theorem scan_item_line kind pre w1 rest :
+  prefix_like kind -> is_zid (strip_chars (S "[]") (strip_chars punct kind)) = false ->
+  Forall prefix_like pre -> ordinary w1 ->
+  scan false true false (kind :: pre ++ w1 :: rest) = all_targets rest.
+Proof.
+  intros (Kl & Kp) Kz Hpre (O1 & O2 & O3 & O4 & O5 & O6).
+  cbn [scan]. rewrite Kl, Kz. cbn [andb].
+  replace (negb false && negb (is_prefix_symbol (strip_chars punct kind)) && negb (is_priority_word (strip_chars punct kind))
+           && negb (is_short_date_spec (strip_chars punct kind)) && negb (is_zid (strip_chars punct kind))) with false.
+  2:{ symmetry. cbn [negb andb].
+      destruct (is_prefix_symbol (strip_chars punct kind)); [reflexivity|].
+      destruct (is_priority_word (strip_chars punct kind)); [reflexivity|].
+      destruct (is_short_date_spec (strip_chars punct kind)); [reflexivity|].
+      cbn [orb] in Kp. rewrite Kp. reflexivity. }
+  rewrite scan_prefix by exact Hpre. cbn [scan]. rewrite O1, O2, O3, O4, O5, O6. cbn [andb negb].
+  apply scan_found.
+Qed.
+
+Example scan_item_line_example :
+  let ws := split_on (ch " ") (S "o P1 240601 240101#05 see [[foo]], ([[bar#sec]]) [240101#02] 240102#03.") in
+  ws = S "o" :: [S "P1"; S "240601"; S "240101#05"] ++ S "see" :: [S "[[foo]],"; S "([[bar#sec]])"; S "[240101#02]"; S "240102#03."] /\
+  prefix_like (S "o") /\ Forall prefix_like [S "P1"; S "240601"; S "240101#05"] /\ ordinary (S "see") /\
+  all_targets [S "[[foo]],"; S "([[bar#sec]])"; S "[240101#02]"; S "240102#03."] =
+  [S "[[foo]]"; S "[[bar#sec]]"; S "240101#02"; S "240102#03"].
+Proof.
+  cbv zeta. split; [vm_compute; reflexivity|]. split; [split; vm_compute; reflexivity|].
+  split; [repeat constructor; vm_compute; reflexivity|]. split; [repeat split; vm_compute; reflexivity|].
+  vm_compute. reflexivity.
+Qed.
